@@ -7,7 +7,7 @@ import vf
 
 GROUP = "Password"
 THEOREMS = ["C25_iff_partial", "C25_mixed_case_refuted", "C25_migration_invariant_partial", "C25_migration_refuted",
-            "C25_laws_satisfiable"]
+            "C25_change_keeps_wf", "C25_change_decides", "C25_laws_satisfiable"]
 META = {
     "group": GROUP,
     "technique": "Coq proof over a Gallina model of ValidatePassword (bcrypt / legacy SHA-256 / brace-quoted plaintext, "
@@ -19,6 +19,8 @@ META = {
             "plaintext equal and plaintext enabled) and the user holds ego.logon or ego.root (case-insensitive). "
             "C25_migration_invariant_partial: whatever a login attempt does to the store, every later verdict for every user and "
             "candidate is unchanged, provided the candidate is at most 72 bytes or the upgraded password is not exactly 72 bytes. "
+            "C25_change_keeps_wf / C25_change_decides: a credential change (ReadUser, replace Password, WriteUser) keeps the store "
+            "well formed and from then on the user is judged by the new credential, everybody else as before. "
             "Both excluded cases are real and recorded as known findings with Coq witnesses (C25_mixed_case_refuted: a stored name "
             "with an upper-case letter can never log in; C25_migration_refuted: after a 72-byte legacy password is upgraded, any "
             "longer password with that prefix is accepted because bcrypt reads 72 bytes). The model (with a stand-in for the hashes "
@@ -29,7 +31,8 @@ META = {
             "of a password of <= 72 bytes matches exactly that password among candidates of <= 72 bytes - this ignores bcrypt's "
             "cyclic-key collisions for passwords containing NUL bytes; bcrypt reads only 72 bytes; generated hashes start with $2a$); "
             "HashPassword fails only for passwords over 72 bytes (RNG failure not modelled); ASCII case folding for names and "
-            "permissions; store = exact-key map (file) / WHERE name = ? (SQLite, AuthCache purged before every call by the harness); "
+            "permissions; store = exact-key map (file) / WHERE name = ? (SQLite with its short-term AuthCache live and never purged within a "
+            "scenario: the model says the cache must be transparent, the tie checks it); "
             "overlay harness, generators, Python oracle.",
 }
 
@@ -118,12 +121,50 @@ def gen_scenario(rng, store, migrating):
                 add(n, c)
             else:
                 steps.append({"user": hx(n.encode()), "pass": hx(rng.choice([b"x", b"", b"s3cret"]))})
+            if rng.random() < 0.22:
+                change_block(rng, info, plaintext, steps, add)
+        if not any(st.get("op") == "change" for st in steps) and rng.random() < 0.6:
+            change_block(rng, info, plaintext, steps, add)
     return {"store": store, "plaintext": plaintext, "users": users, "steps": steps}
+
+
+def cheap_right(fmt, pw, plaintext):
+    """may the right password be presented without triggering a cost-12 upgrade?"""
+    return fmt == "bcrypt" or len(pw) > 72 or (fmt == "plain" and not plaintext)
+
+
+def change_block(rng, info, plaintext, steps, add):
+    """login, CHANGE the stored credential of an existing user (admin password reset), logins with old and new"""
+    n = rng.choice(list(info))
+    fmt, pw, perms = info[n]
+    if fmt != "raw" and cheap_right(fmt, pw, plaintext):
+        add(n, pw)                                   # loads the short-term cache with the current record
+    else:
+        add(n, pw + b"?")
+    r = rng.random()
+    if r < 0.7:
+        nfmt, npw = "bcrypt", rng.choice([b"new-secret", b"N3w!", pw + b"2", b"Z9" * 36])
+    elif r < 0.85:
+        nfmt, npw = "sha", b"M" * 75                 # legacy format, never upgraded (over 72 bytes)
+    else:
+        nfmt, npw = "plain", rng.choice([b"plain-new", b"pw2"])
+    if npw == pw:
+        npw = pw + b"#"
+    if nfmt == "bcrypt" and len(npw) > 72:           # bcrypt hashes exist only for passwords of at most 72 bytes
+        npw = rng.choice([x for x in (b"new-secret", b"N3w!") if x != pw])
+    steps.append({"op": "change", "user": hx(n.encode()), "fmt": nfmt, "pw": hx(npw)})
+    info[n] = (nfmt, npw, perms)
+    if fmt != "raw":
+        add(n, pw)                                   # old password: must be rejected now
+    if cheap_right(nfmt, npw, plaintext) or rng.random() < 0.25:
+        add(n, npw)                                  # new password: must be accepted (given permission / setting)
+    add(n, npw + b"x")
 
 
 def corpus():
     u = lambda n, f, p, perms: {"name": n, "fmt": f, "pw": hx(p), "perms": perms}
     s = lambda n, p: {"user": hx(n.encode()), "pass": hx(p)}
+    c = lambda n, f, p: {"op": "change", "user": hx(n.encode()), "fmt": f, "pw": hx(p)}
     p72 = b"a" * 72
     return [
         # C25_migration_refuted witness: 72-byte quoted plaintext, upgrade, then prefix+tail
@@ -135,6 +176,18 @@ def corpus():
         # upgrade by a user without logon: verdict false, credential upgraded, still false afterwards
         {"store": "file", "plaintext": False, "users": [u("eve", "sha", b"zork", ["employees"]), u("al", "plain", b"p", ["ego.root"])],
          "steps": [s("eve", b"zork"), s("eve", b"zork"), s("al", b"p"), s("AL", b"p")]},
+        # credential change (admin password reset) between logins, both stores, bcrypt- and SHA-stored users,
+        # then a permission-less change and a change of a legacy credential that upgrades afterwards
+        {"store": "db", "plaintext": False, "users": [u("bob", "bcrypt", b"first-secret", ["ego.logon"]),
+                                                      u("al", "sha", b"F" * 80, ["ego.root"])],
+         "steps": [s("bob", b"first-secret"), s("bob", b"second-secret"), c("bob", "bcrypt", b"second-secret"),
+                   s("bob", b"second-secret"), s("bob", b"first-secret"), s("Bob", b"second-secret"),
+                   s("al", b"F" * 80), c("al", "bcrypt", b"second-secret"), s("al", b"second-secret"), s("al", b"F" * 80),
+                   c("bob", "sha", b"third"), s("bob", b"second-secret"), s("bob", b"third"), s("bob", b"third")]},
+        {"store": "file", "plaintext": True, "users": [u("bob", "bcrypt", b"first-secret", ["ego.logon"]),
+                                                       u("al", "plain", b"p", ["ego.root"])],
+         "steps": [s("bob", b"first-secret"), c("bob", "bcrypt", b"second-secret"), s("bob", b"second-secret"),
+                   s("bob", b"first-secret"), s("al", b"q"), c("al", "plain", b"q"), s("al", b"p"), s("al", b"q"), s("al", b"q")]},
         {"store": "db", "plaintext": True, "users": [u("al", "plain", b"p", ["ego.root"]), u("bob", "sha", b"L" * 80, ["ego.logon"])],
          "steps": [s("al", b"P"), s("Al", b"p"), s("al", b"p"), s("bob", b"L" * 80), s("bob", b"L" * 72), s("bob", b"L" * 80)]},
     ]
@@ -186,11 +239,16 @@ Definition cls (init : user) (st : store) : N :=
   | None => 3
   | Some y => if str_eqb (upass y) (upass init) then 0 else if is_bcrypt (upass y) then 1 else 2
   end.
-Fixpoint runs (pt : bool) (init st : store) (steps : list (str * str)) : list N :=
+Inductive stp := Login (u p : str) | Change (n c : str).
+(* [base] = what the harness last wrote per user (seed or change); classes are relative to it *)
+Fixpoint runs (pt : bool) (base st : store) (steps : list stp) : list N :=
   match steps with
   | [] => []
-  | (u, p) :: r => let (ok, st') := validate toy pt st u p in
-                   (if ok then 1 else 0) :: map (fun x => cls x st') init ++ runs pt init st' r
+  | Login u p :: r => let (ok, st') := validate toy pt st u p in
+                      (if ok then 1 else 0) :: map (fun x => cls x st') base ++ runs pt base st' r
+  | Change n c :: r => let st' := change_password st n c in
+                       let base' := change_password base n c in
+                       (match lookup n st with Some _ => 1 | None => 0 end) :: map (fun x => cls x st') base' ++ runs pt base' st' r
   end.
 """
 CLS = {"same": 0, "bcrypt": 1, "missing": 3}
@@ -201,8 +259,8 @@ def run(ck):
     ck.cov["rule"] = ("scenarios = user store (file / SQLite) seeded with 2-5 users x stored format (bcrypt, SHA-256 hex, quoted "
                       "plaintext, 10 raw oddities) x permission lists (5 granting, 5 not) x plaintext setting; steps = (name in 4 case "
                       "variants / unknown / empty, candidate in {right, wrong, empty, case-swapped, +suffix, -1 byte, first 72 bytes, "
-                      "72-byte prefix + tail, quoted, doubled}), upgrade scenarios re-ask the same candidates after the upgrade. "
-                      "distinct_nontrivial = distinct (stored format, plaintext, verdict, upgraded-before?) classes with verdict "
+                      "72-byte prefix + tail, quoted, doubled}) and credential changes of existing users (ReadUser/WriteUser as the admin handlers, live auth cache) followed by logins with the old and the new password; upgrade scenarios re-ask the same candidates after the upgrade. "
+                      "distinct_nontrivial = distinct (stored format, plaintext, verdict, upgraded-before?, credential-changed-before?) classes with verdict "
                       "true or an existing user")
     ck.assume("hash_laws: SHA-256 collision-free; bcrypt(gen p) matches exactly p among candidates of <= 72 bytes (NUL-cyclic "
               "collisions ignored); bcrypt reads only the first 72 bytes; HashPassword output starts with $2a$",
@@ -243,7 +301,7 @@ def run(ck):
     outs = json.load(open(outp))
 
     nsteps, classes, oracle_bad = 0, set(), set()
-    dist = {"file": 0, "db": 0, "upgrades": 0, "accepted": 0, "steps_after_upgrade": 0}
+    dist = {"file": 0, "db": 0, "upgrades": 0, "changes": 0, "accepted": 0, "steps_after_upgrade": 0, "logins_after_change": 0}
     for i, (sc, o) in enumerate(zip(scs, outs)):
         dist[sc["store"]] += 1
         if o.get("error"):
@@ -252,6 +310,7 @@ def run(ck):
             continue
         info = {u["name"]: (u["fmt"], bytes.fromhex(u["pw"]), u["perms"]) for u in sc["users"]}
         upgraded = {}
+        changed = set()
         asked = {}       # (lower user, candidate) -> verdict before any upgrade of that user
 
         def rep(sig, what, k):
@@ -261,12 +320,29 @@ def run(ck):
 
         for k, (st, so) in enumerate(zip(sc["steps"], o["steps"])):
             nsteps += 1
+            if st.get("op") == "change":
+                cn = bytes.fromhex(st["user"]).decode()
+                dist["changes"] += 1
+                if not so["ok"]:
+                    rep("change-failed", "changing the credential of existing user %r failed" % cn, k)
+                    break
+                info[cn] = (st["fmt"], bytes.fromhex(st["pw"]), info[cn][2])
+                changed.add(cn)
+                upgraded.pop(cn, None)
+                for key in [q for q in asked if q[0] == cn]:
+                    del asked[key]
+                bad = [(name, c) for name, c in so["stored"].items() if c != ("bcrypt" if name in upgraded else "same")]
+                if bad:
+                    rep("stored-credential", "after the credential change of %r the store holds %r" % (cn, bad), k)
+                    break
+                continue
             u, p = bytes.fromhex(st["user"]).decode(), bytes.fromhex(st["pass"])
             want, n = spec(info, sc["plaintext"], upgraded, u, p)
             got = so["ok"]
             dist["accepted"] += got
             if n is not None:
-                classes.add((info[n][0], sc["plaintext"], got, n in upgraded))
+                classes.add((info[n][0], sc["plaintext"], got, n in upgraded, n in changed))
+                dist["logins_after_change"] += n in changed
                 if n in upgraded:
                     dist["steps_after_upgrade"] += 1
             if got != want:
@@ -277,8 +353,9 @@ def run(ck):
                     rep("bcrypt-72-truncation", "after the legacy 72-byte password of %r was upgraded to bcrypt, a %d-byte password "
                         "with that prefix is accepted (it was rejected before the upgrade)" % (n, len(p)), k)
                 else:
-                    rep("verdict", "ValidatePassword(%r, %r) = %s, the property says %s (stored format %s%s, permissions %r)" % (
-                        u, p, got, want, info[n][0] if n else "-", " upgraded" if n in upgraded else "", info[n][2] if n else None), k)
+                    rep("verdict", "ValidatePassword(%r, %r) = %s, the property says %s for the credential stored NOW (format %s%s, "
+                        "password %r, permissions %r)" % (u, p, got, want, info[n][0] if n else "-", " upgraded" if n in upgraded else "",
+                                                          (upgraded.get(n) or info[n][1])[:24] if n else None, info[n][2] if n else None), k)
                     break
             # upgrading must not change any verdict: compare with what the same question got before
             if n is not None:
@@ -312,7 +389,8 @@ def run(ck):
     for sc in scs[:2] + scs[-1:]:
         ck.sample({"store": sc["store"], "plaintext": sc["plaintext"],
                    "users": [(u["name"], u["fmt"], bytes.fromhex(u["pw"]).decode("latin1")[:16], u["perms"]) for u in sc["users"]],
-                   "steps": [(bytes.fromhex(s["user"]).decode(), bytes.fromhex(s["pass"]).decode("latin1")[:16]) for s in sc["steps"][:6]]})
+                   "steps": [(s.get("op", "login"), bytes.fromhex(s["user"]).decode(),
+                              bytes.fromhex(s.get("pass", s.get("pw", ""))).decode("latin1")[:16]) for s in sc["steps"][:6]]})
 
     # ---- correspondence with the model
     if getattr(ck, "coq_broken", None):
@@ -328,7 +406,9 @@ def run(ck):
             continue
         st = "[" + "; ".join("{| uname := %s; upass := %s; uperms := %s |}" % (
             vf.vstr(u["name"]), vstored(u["fmt"], bytes.fromhex(u["pw"])), vperm(u["perms"])) for u in sc["users"]) + "]"
-        steps = "[" + "; ".join("(%s, %s)" % (vf.vstr(bytes.fromhex(s["user"])), vf.vstr(bytes.fromhex(s["pass"]))) for s in sc["steps"]) + "]"
+        steps = "[" + "; ".join(
+            ("Change %s (%s)" % (vf.vstr(bytes.fromhex(s["user"])), vstored(s["fmt"], bytes.fromhex(s["pw"])))) if s.get("op") == "change"
+            else ("Login %s %s" % (vf.vstr(bytes.fromhex(s["user"])), vf.vstr(bytes.fromhex(s["pass"])))) for s in sc["steps"]) + "]"
         exprs["s%d" % i] = "runs %s %s %s %s" % ("true" if sc["plaintext"] else "false", st, st, steps)
     t0 = time.time()
     okc, res = vf.coq_eval(GROUP, ck.work, "cases", PRELUDE, exprs)
@@ -353,8 +433,9 @@ def run(ck):
         if bad and i not in oracle_bad:
             k, row, real = bad
             stp = sc["steps"][k]
-            ck.violation("corr-validate", "model and implementation disagree at step #%d (%r, %r): real [verdict, stored classes]=%s, "
-                         "model %s (store=%s plaintext=%s)" % (k, bytes.fromhex(stp["user"]), bytes.fromhex(stp["pass"]), real, row,
+            ck.violation("corr-validate", "model and implementation disagree at step #%d (%s %r, %r): real [verdict, stored classes]=%s, "
+                         "model %s (store=%s plaintext=%s)" % (k, stp.get("op", "login"), bytes.fromhex(stp["user"]),
+                                                               bytes.fromhex(stp.get("pass", stp.get("pw", ""))), real, row,
                                                                sc["store"], sc["plaintext"]),
                          replay={"scenario": dict(sc, steps=sc["steps"][:k + 1])}, found_input=False)
         elif not bad:
